@@ -282,10 +282,14 @@ Definition c07_xy_fit (n : netlist) (what : string) (i : idv) : fails :=
   end.
 
 (* names: the expected enumeration member names in order (computed from the description) *)
+Definition enum_width_ok (e : Z * list (string * Z)) : bool :=
+  forallb (fun p => (0 <=? snd p) && (snd p <? pow2 (fst e))) (snd e).
 Definition chk_C07 (n : netlist) (names : list string) : fails :=
   let ids := map ni_id (n_nis n) in
   let members := snd (n_ep_enum n) in
   let nn := length names in
+  (* "representable": every member of ep_id_e, the count NumEndpoints included, fits the enumeration's base type *)
+  guard (enum_width_ok (n_ep_enum n)) "enum-width" "ep_id_e is too narrow for its largest member (NumEndpoints = N included)" ++
   guard (nodupb idv_eqb ids) "duplicate-id" "two network interfaces share a routing identity" ++
   guard (nodupb str_eqb (map fst members)) "duplicate-name" "an enumeration name occurs twice" ++
   guard (list_eqb_str (map fst members) (names ++ ["NumEndpoints"])) "enum-names"
@@ -317,8 +321,6 @@ Definition chk_C07 (n : netlist) (names : list string) : fails :=
      end).
 
 (* ---------------------------------------------------------------- C13: counts *)
-Definition enum_width_ok (e : Z * list (string * Z)) : bool :=
-  forallb (fun p => (0 <=? snd p) && (snd p <? pow2 (fst e))) (snd e).
 
 Definition c13_router (n : netlist) (r : rt_inst) : fails :=
   let lens := [length (r_req_in r); length (r_rsp_out r); length (r_req_out r); length (r_rsp_in r)] ++
